@@ -2,7 +2,7 @@
    and refines the reference semantics (plain finite maps). *)
 From stdpp Require Import gmap list.
 From Coq Require Import NArith Lia.
-From G Require Import Arith Monad Types Inv Raw RawProofs Map MapProofs IterProofs Cost.
+From G Require Import Arith Monad Types Inv Raw RawProofs Map MapProofs IterProofs CloneProofs Cost.
 Local Open Scope N_scope.
 
 (* ---------------------------------------------------------------- the reference *)
@@ -62,6 +62,16 @@ Definition spec_rel (σ : gmap N (gmap N elem)) (o : op) (r : out) (σ' : gmap N
   | OIntoIter s j =>
       exists (m : gmap N elem) l, σ !! s = Some m /\ NoDup (map ek l) /\ list_to_emap l = m /\
         r = OutL (map elem3 (firstn (N.to_nat j) l)) /\ σ' = delete s σ
+  (* clone / clone_from: the destination holds exactly the source's contents (and reports its hasher) *)
+  | OClone s d => exists m : gmap N elem, σ !! s = Some m /\
+      (((exists h, r = OutN h) /\ σ' = <[d := m]> σ) \/ (r = OutP PCapOverflow /\ σ' = σ))
+  | OCloneFrom d s => exists m md : gmap N elem, σ !! s = Some m /\ σ !! d = Some md /\
+      (((exists h, r = OutN h) /\ σ' = <[d := m]> σ) \/
+       (* a documented capacity overflow while re-inserting: the destination's contents are unspecified *)
+       (r = OutP PCapOverflow /\ exists m' : gmap N elem, σ' = <[d := m']> σ))
+  (* ==: true exactly when both hold the same keys with equal values *)
+  | OEq a b => exists ma mb : gmap N elem, σ !! a = Some ma /\ σ !! b = Some mb /\
+                 (exists b, r = OutB b /\ (b = true <-> veq ma mb)) /\ σ' = σ
   | _ => True
   end.
 
@@ -71,6 +81,7 @@ Definition core_op (o : op) : Prop :=
   | ONew _ _ cap => True
   | OInsert _ _ _ _ | OGet _ _ _ _ | ORemove _ _ _ | OClear _ | OShrinkTo _ _ | ODrop _ => True
   | OIter _ _ _ | ORetain _ _ _ | ODrainFilter _ _ _ _ _ | ODrain _ _ _ | OIntoIter _ _ => True
+  | OClone _ _ | OCloneFrom _ _ | OEq _ _ => True
   | OReserve _ n | OTryReserve _ n => n <= usize_max
   | _ => False
   end.
@@ -82,7 +93,10 @@ Context (c : cfg) (HRpos : 0 < cR c).
 Notation R := (cR c).
 Notation ES := (cesz c).
 
-Definition slot_ok (m : mslot) : Prop := Inv R ES (m_rt m) /\ m_filed m = m_hs m.
+(* (a map whose elements are filed under another hasher than its own — the state an interrupted
+   clone_from may leave — still satisfies the memory-level invariant; lawful histories only
+   look such a map up again after emptying it: with_slot_h) *)
+Definition slot_ok (m : mslot) : Prop := Inv R ES (m_rt m).
 Definition WInv (w : world) : Prop := forall i m, w_maps w !! i = Some m -> slot_ok m.
 
 (* the contents of every map, as plain finite maps: the state of the reference *)
@@ -119,11 +133,11 @@ Lemma wres_rmap {A B} (f : A -> B) r (Q : B -> world -> Prop) U :
   wres r (fun a w => Q (f a) w) U -> wres (rmap f r) Q U.
 Proof. destruct r; exact (fun H => H). Qed.
 
-Lemma WInv_store w i hs s :
-  WInv w -> Inv R ES (s_rt s) -> WInv (store w i hs hs s).
+Lemma WInv_store w i hs f s :
+  WInv w -> Inv R ES (s_rt s) -> WInv (store w i hs f s).
 Proof.
   intros HW HI j m. unfold store. cbn [w_maps]. destruct (N.eq_dec j i) as [->|Hne].
-  - rewrite lookup_insert. intros [= <-]. split; [exact HI|reflexivity].
+  - rewrite lookup_insert. intros [= <-]. exact HI.
   - rewrite lookup_insert_ne by congruence. apply HW.
 Qed.
 
@@ -137,7 +151,7 @@ Lemma WInv_insert_new w s hs :
   WInv w -> WInv (W (<[s := MS rt_new hs hs]> (w_maps w)) (w_log w) (w_fuse w)).
 Proof.
   intros HW j m. cbn [w_maps]. destruct (N.eq_dec j s) as [->|Hne].
-  - rewrite lookup_insert. intros [= <-]. split; [apply Inv_new; exact HRpos|reflexivity].
+  - rewrite lookup_insert. intros [= <-]. apply Inv_new; exact HRpos.
   - rewrite lookup_insert_ne by congruence. apply HW.
 Qed.
 
@@ -158,10 +172,10 @@ Definition step_U (w : world) (t : traced) (p : panic) (w' : world) : Prop :=
   (p <> PUser /\ step_post w t (OutP p) w') \/ (p = PUser /\ WInv w').
 
 Lemma store_same w i ms s :
-  w_maps w !! i = Some ms -> m_filed ms = m_hs ms -> s_rt s = m_rt ms ->
+  w_maps w !! i = Some ms -> s_rt s = m_rt ms ->
   wabs (store w i (m_hs ms) (m_filed ms) s) = wabs w.
 Proof.
-  intros Hi Hf Hs. rewrite wabs_store, Hs. apply insert_id. apply wabs_lookup. exact Hi.
+  intros Hi Hs. rewrite wabs_store, Hs. apply insert_id. apply wabs_lookup. exact Hi.
 Qed.
 
 Theorem step_core w t :
@@ -187,8 +201,8 @@ Proof.
       * rewrite Eop. cbn [spec_rel]. split; [right; reflexivity|]. rewrite wabs_store. cbn [load s_rt m_rt]. rewrite rt_abs_new. apply Hw0abs.
   - (* OInsert *)
     apply wres_rmap. destruct (w_maps w !! s) as [ms|] eqn:Hs; [|apply with_slot_gen_missing; exact Hs].
-    destruct (HW s ms Hs) as [HI Hfil].
-    apply with_slot_gen_spec with (ms := ms); [exact Hs|]. intros _. rewrite Hfil.
+    pose proof (HW s ms Hs) as HI.
+    apply with_slot_gen_spec with (ms := ms); [exact Hs|]. intros _.
     eapply wp_conseq; [apply (map_insert_spec c k kid v); exact HI| |].
     + intros res s1 (HI1 & Hres & _). unfold step_post. split; [apply WInv_store; assumption|].
       rewrite Eop. cbn [spec_rel]. exists (rt_abs (m_rt ms)). split; [apply wabs_lookup; exact Hs|]. left.
@@ -201,8 +215,8 @@ Proof.
       split; [reflexivity|]. rewrite wabs_store, Hp. cbn [load s_rt]. apply insert_id. apply wabs_lookup. exact Hs.
   - (* OGet *)
     destruct (w_maps w !! s) as [ms|] eqn:Hs; [|apply with_slot_gen_missing; exact Hs].
-    destruct (HW s ms Hs) as [HI Hfil].
-    apply with_slot_gen_spec with (ms := ms); [exact Hs|]. intros _. rewrite Hfil.
+    pose proof (HW s ms Hs) as HI.
+    apply with_slot_gen_spec with (ms := ms); [exact Hs|]. intros _.
     eapply wp_conseq; [apply (map_get_spec c (gvar_of variant) k w0); exact HI| |].
     + intros o s1 (HI1 & Ho & Habs & _). unfold step_post. split; [apply WInv_store; assumption|].
       rewrite Eop. cbn [spec_rel]. exists (rt_abs (m_rt ms)). split; [apply wabs_lookup; exact Hs|].
@@ -214,13 +228,13 @@ Proof.
         split; [right; auto|]. rewrite wabs_store, Hs1. cbn [load s_rt]. unfold get_after. rewrite Hg. reflexivity.
   - (* ORemove *)
     destruct (w_maps w !! s) as [ms|] eqn:Hs; [|apply with_slot_gen_missing; exact Hs].
-    destruct (HW s ms Hs) as [HI Hfil].
-    apply with_slot_gen_spec with (ms := ms); [exact Hs|]. intros _. rewrite Hfil.
+    pose proof (HW s ms Hs) as HI.
+    apply with_slot_gen_spec with (ms := ms); [exact Hs|]. intros _.
     apply wp_bind. eapply wp_conseq; [apply (map_remove_entry_spec c k); exact HI| |].
     + intros o s1 (HI1 & -> & Habs). cbn [load s_rt] in *.
       assert (Hfin : forall s2 r, s_rt s2 = s_rt s1 ->
                 r = (if entry then OutOKV ((fun e => (ekid e, ev e)) <$> rt_abs (m_rt ms) !! k) else OutOV (ev <$> rt_abs (m_rt ms) !! k)) ->
-                step_post w t r (store w s (m_hs ms) (m_hs ms) s2)).
+                step_post w t r (store w s (m_hs ms) (m_filed ms) s2)).
       { intros s2 r Hs2 ->. unfold step_post. split; [apply WInv_store; [exact HW|rewrite Hs2; exact HI1]|].
         rewrite Eop. cbn [spec_rel]. exists (rt_abs (m_rt ms)). split; [apply wabs_lookup; exact Hs|].
         split; [reflexivity|]. rewrite wabs_store, Hs2, Habs. reflexivity. }
@@ -233,16 +247,16 @@ Proof.
     + intros p s1 (Hs1 & ->). right. split; [reflexivity|]. apply WInv_store; [exact HW|rewrite Hs1; exact HI].
   - (* OClear *)
     apply wres_rmap. destruct (w_maps w !! s) as [ms|] eqn:Hs; [|apply with_slot_gen_missing; exact Hs].
-    destruct (HW s ms Hs) as [HI Hfil].
-    apply with_slot_gen_spec with (ms := ms); [exact Hs|]. intros _. rewrite Hfil.
+    pose proof (HW s ms Hs) as HI.
+    apply with_slot_gen_spec with (ms := ms); [exact Hs|]. intros _.
     apply (rt_clear_spec c); [exact HI|]. intros s1 HI1 Habs1 _ _. unfold step_post.
     split; [apply WInv_store; assumption|]. rewrite Eop. cbn [spec_rel].
     exists (rt_abs (m_rt ms)). split; [apply wabs_lookup; exact Hs|]. split; [reflexivity|].
     rewrite wabs_store, Habs1. reflexivity.
   - (* OReserve *)
     apply wres_rmap. destruct (w_maps w !! s) as [ms|] eqn:Hs; [|apply with_slot_gen_missing; exact Hs].
-    destruct (HW s ms Hs) as [HI Hfil].
-    apply with_slot_gen_spec with (ms := ms); [exact Hs|]. intros _. rewrite Hfil.
+    pose proof (HW s ms Hs) as HI.
+    apply with_slot_gen_spec with (ms := ms); [exact Hs|]. intros _.
     unfold map_reserve. apply (rt_reserve_spec c); [exact HI|exact Hcore| | |].
     + intros s1 (HI1 & Habs1 & _). unfold step_post. split; [apply WInv_store; assumption|].
       rewrite Eop. cbn [spec_rel]. exists (rt_abs (m_rt ms)). split; [apply wabs_lookup; exact Hs|].
@@ -257,8 +271,8 @@ Proof.
         apply insert_id. apply wabs_lookup. exact Hs.
   - (* OTryReserve *)
     apply wres_rmap. destruct (w_maps w !! s) as [ms|] eqn:Hs; [|apply with_slot_gen_missing; exact Hs].
-    destruct (HW s ms Hs) as [HI Hfil].
-    apply with_slot_gen_spec with (ms := ms); [exact Hs|]. intros _. rewrite Hfil.
+    pose proof (HW s ms Hs) as HI.
+    apply with_slot_gen_spec with (ms := ms); [exact Hs|]. intros _.
     unfold map_reserve. apply (rt_reserve_spec c); [exact HI|exact Hcore| | |].
     + intros s1 (HI1 & Habs1 & _). unfold step_post. split; [apply WInv_store; assumption|].
       rewrite Eop. cbn [spec_rel]. exists (rt_abs (m_rt ms)). split; [apply wabs_lookup; exact Hs|].
@@ -271,8 +285,8 @@ Proof.
       * specialize (Hf eq_refl). discriminate.
   - (* OShrinkTo *)
     apply wres_rmap. destruct (w_maps w !! s) as [ms|] eqn:Hs; [|apply with_slot_gen_missing; exact Hs].
-    destruct (HW s ms Hs) as [HI Hfil].
-    apply with_slot_gen_spec with (ms := ms); [exact Hs|]. intros _. rewrite Hfil.
+    pose proof (HW s ms Hs) as HI.
+    apply with_slot_gen_spec with (ms := ms); [exact Hs|]. intros _.
     apply (rt_shrink_to_spec c); [exact HI| |].
     + intros s1 (HI1 & Habs1 & _). unfold step_post. split; [apply WInv_store; assumption|].
       rewrite Eop. cbn [spec_rel]. exists (rt_abs (m_rt ms)). split; [apply wabs_lookup; exact Hs|].
@@ -280,8 +294,8 @@ Proof.
     + intros s1 HI1 _. right. split; [reflexivity|apply WInv_store; assumption].
   - (* OIter *)
     apply wres_rmap. destruct (w_maps w !! s) as [ms|] eqn:Hs; [|apply with_slot_gen_missing; exact Hs].
-    destruct (HW s ms Hs) as [HI Hfil].
-    apply with_slot_gen_spec with (ms := ms); [exact Hs|]. intros _. rewrite Hfil.
+    pose proof (HW s ms Hs) as HI.
+    apply with_slot_gen_spec with (ms := ms); [exact Hs|]. intros _.
     apply (map_iter_spec c delta); [exact HI|]. intros l s1 Hit HI1 Habs1. cbn [load s_rt] in *.
     destruct (iter_of_abs c _ _ HI Hit) as [Hemap Hnd].
     unfold step_post. split; [apply WInv_store; assumption|]. rewrite Eop. cbn [spec_rel].
@@ -289,8 +303,8 @@ Proof.
     split; [rewrite map_map; reflexivity|]. rewrite wabs_store, Habs1. reflexivity.
   - (* ODrain *)
     apply wres_rmap. destruct (w_maps w !! s) as [ms|] eqn:Hs; [|apply with_slot_gen_missing; exact Hs].
-    destruct (HW s ms Hs) as [HI Hfil].
-    apply with_slot_gen_spec with (ms := ms); [exact Hs|]. intros _. rewrite Hfil.
+    pose proof (HW s ms Hs) as HI.
+    apply with_slot_gen_spec with (ms := ms); [exact Hs|]. intros _.
     apply (map_drain_spec c j forget); [exact HI|]. intros l s1 Hd HI1 Habs1 _. cbn [load s_rt] in *.
     destruct (drain_of_abs c _ _ HI Hd) as [Hemap Hnd].
     unfold step_post. split; [apply WInv_store; assumption|]. rewrite Eop. cbn [spec_rel].
@@ -298,7 +312,7 @@ Proof.
     split; [reflexivity|]. rewrite wabs_store, Habs1. reflexivity.
   - (* OIntoIter *)
     unfold with_slot, with_slot_gen. destruct (w_maps w !! s) as [ms|] eqn:Hs; [|right; reflexivity].
-    cbn [andb]. destruct (HW s ms Hs) as [HI Hfil].
+    cbn [andb]. pose proof (HW s ms Hs) as HI.
     pose proof (map_into_iter_spec c j (fun r _ => exists l, drain_of (m_rt ms) l /\ r = map elem3 (firstn (N.to_nat j) l)) (fun _ _ => False)
                   (load w ms (t_on t, t_tomb t) (t_perm t, t_qperm t)) HI) as Hd.
     unfold wp in Hd. destruct (map_into_iter j (load w ms (t_on t, t_tomb t) (t_perm t, t_qperm t))) as [a s1|p s1|f].
@@ -313,8 +327,8 @@ Proof.
     + apply Hd. intros l s' Hdr. exists l; auto.
   - (* ORetain *)
     apply wres_rmap. destruct (w_maps w !! s) as [ms|] eqn:Hs; [|apply with_slot_gen_missing; exact Hs].
-    destruct (HW s ms Hs) as [HI Hfil].
-    apply with_slot_gen_spec with (ms := ms); [exact Hs|]. intros _. rewrite Hfil.
+    pose proof (HW s ms Hs) as HI.
+    apply with_slot_gen_spec with (ms := ms); [exact Hs|]. intros _.
     apply (map_retain_spec c keep delta); [exact HI| |].
     + intros l s1 Hit HI1 Habs1. cbn [load s_rt] in *.
       destruct (iter_of_abs c _ _ HI Hit) as [Hemap Hnd].
@@ -325,8 +339,8 @@ Proof.
     + intros s1 HI1. right. split; [reflexivity|apply WInv_store; assumption].
   - (* ODrainFilter *)
     apply wres_rmap. destruct (w_maps w !! s) as [ms|] eqn:Hs; [|apply with_slot_gen_missing; exact Hs].
-    destruct (HW s ms Hs) as [HI Hfil].
-    apply with_slot_gen_spec with (ms := ms); [exact Hs|]. intros _. rewrite Hfil.
+    pose proof (HW s ms Hs) as HI.
+    apply with_slot_gen_spec with (ms := ms); [exact Hs|]. intros _.
     apply (map_drain_filter_spec c take delta j forget); [exact HI| |].
     + intros l v1 rest s1 Hit Hl HI1 Hres Hj. cbn [load s_rt] in *.
       destruct (iter_of_abs c _ _ HI Hit) as [Hemap Hnd].
@@ -339,6 +353,62 @@ Proof.
                intros Hr. apply Hj2. intros ->. apply Hr. reflexivity. }
       rewrite wabs_store. reflexivity.
     + intros s1 HI1. right. split; [reflexivity|apply WInv_store; assumption].
+  - (* OClone *)
+    destruct (w_maps w !! s) as [ms|] eqn:Hs; [|right; reflexivity].
+    destruct (negb (m_filed ms =? m_hs ms)); [right; reflexivity|].
+    pose proof (HW s ms Hs) as HI.
+    pose proof (rt_clone_spec c
+      (fun r' s' => s_rt s' = m_rt ms /\ Inv R ES r' /\ rt_abs r' = rt_abs (m_rt ms))
+      (fun p s' => p = PUser \/ p = PCapOverflow) (load w ms (t_on t, t_tomb t) (t_perm t, t_qperm t)) HI) as Hc.
+    unfold wp in Hc. destruct (rt_clone c (load w ms (t_on t, t_tomb t) (t_perm t, t_qperm t))) as [r' s'|p s'|f].
+    + destruct Hc as (Hs' & HI' & Habs'); [intros; auto|auto|].
+      cbn [wres]. unfold step_post. split.
+      * intros i m. cbn [w_maps]. destruct (N.eq_dec i d) as [->|Hne].
+        -- rewrite lookup_insert. intros [= <-]. exact HI'.
+        -- rewrite lookup_insert_ne by congruence. apply HW.
+      * rewrite Eop. cbn [spec_rel]. exists (rt_abs (m_rt ms)). split; [apply wabs_lookup; exact Hs|]. left.
+        split; [eauto|]. unfold wabs. cbn [w_maps]. rewrite fmap_insert. cbn [m_rt]. rewrite Habs'. reflexivity.
+    + cbn [wres]. assert (Hp : p = PUser \/ p = PCapOverflow) by (apply Hc; intros; auto).
+      assert (HW' : WInv (W (w_maps w) (s_log s') (s_fuse s'))) by (intros i m Hi; cbn [w_maps] in Hi; eapply HW; eauto).
+      destruct Hp as [->| ->].
+      * right. split; [reflexivity|exact HW'].
+      * left. split; [discriminate|]. unfold step_post. split; [exact HW'|].
+        rewrite Eop. cbn [spec_rel]. exists (rt_abs (m_rt ms)). split; [apply wabs_lookup; exact Hs|]. right. split; reflexivity.
+    + apply Hc; intros; auto.
+  - (* OCloneFrom *)
+    destruct (w_maps w !! s) as [src|] eqn:Hs; [|right; reflexivity].
+    destruct (w_maps w !! d) as [dst|] eqn:Hd; [|right; reflexivity].
+    destruct (negb (m_filed src =? m_hs src)); [right; reflexivity|].
+    pose proof (HW s src Hs) as HIs. pose proof (HW d dst Hd) as HId.
+    pose proof (rt_clone_from_spec c (m_rt src)
+      (fun _ s' => Inv R ES (s_rt s') /\ rt_abs (s_rt s') = rt_abs (m_rt src))
+      (fun p s' => Inv R ES (s_rt s') /\ (p = PUser \/ p = PCapOverflow))
+      (load w dst (t_on t, t_tomb t) (t_perm t, t_qperm t)) HId HIs) as Hc.
+    unfold wp in Hc. destruct (rt_clone_from c (m_rt src) (load w dst (t_on t, t_tomb t) (t_perm t, t_qperm t))) as [a s'|p s'|f].
+    + destruct Hc as (HI' & Habs'); [intros; auto|intros; auto|].
+      cbn [wres]. unfold step_post. split; [apply WInv_store; assumption|].
+      rewrite Eop. cbn [spec_rel]. exists (rt_abs (m_rt src)), (rt_abs (m_rt dst)).
+      split; [apply wabs_lookup; exact Hs|]. split; [apply wabs_lookup; exact Hd|]. left.
+      split; [eauto|]. rewrite wabs_store, Habs'. reflexivity.
+    + cbn [wres]. destruct Hc as (HI' & Hp); [intros; auto|intros; auto|].
+      destruct Hp as [->| ->].
+      * right. split; [reflexivity|apply WInv_store; assumption].
+      * left. split; [discriminate|]. unfold step_post. split; [apply WInv_store; assumption|].
+        rewrite Eop. cbn [spec_rel]. exists (rt_abs (m_rt src)), (rt_abs (m_rt dst)).
+        split; [apply wabs_lookup; exact Hs|]. split; [apply wabs_lookup; exact Hd|]. right.
+        split; [reflexivity|]. eexists. apply wabs_store.
+    + apply Hc; intros; auto.
+  - (* OEq *)
+    destruct (w_maps w !! b) as [mb|] eqn:Hb; [|right; reflexivity].
+    apply wres_rmap. destruct (w_maps w !! a) as [ma|] eqn:Ha; [|apply with_slot_gen_missing; exact Ha].
+    pose proof (HW a ma Ha) as HIa. pose proof (HW b mb Hb) as HIb.
+    apply with_slot_gen_spec with (ms := ma); [exact Ha|]. intros _.
+    apply (map_equal_spec c (m_rt mb)); [exact HIa|exact HIb| |].
+    + intros bb s1 Hs1 Hbb. cbn [load s_rt] in *. unfold step_post. split; [apply WInv_store; [exact HW|rewrite Hs1; exact HIa]|].
+      rewrite Eop. cbn [spec_rel]. exists (rt_abs (m_rt ma)), (rt_abs (m_rt mb)).
+      split; [apply wabs_lookup; exact Ha|]. split; [apply wabs_lookup; exact Hb|].
+      split; [exists bb; auto|]. apply store_same; assumption.
+    + intros s1 Hs1. right. split; [reflexivity|]. apply WInv_store; [exact HW|rewrite Hs1; exact HIa].
   - (* ODrop *)
     unfold with_slot, with_slot_gen. destruct (w_maps w !! s) as [ms|] eqn:Hs; [|right; reflexivity].
     cbn [andb].
@@ -400,6 +470,18 @@ Proof.
     unfold with_slot. destruct (with_slot_gen false w s (t_on t, t_tomb t) (t_perm t, t_qperm t) (map_into_iter j)); exact H.
   - apply wnf_rmap. apply with_slot_gen_nf; [|exact Hf]. apply nf_map_retain.
   - apply wnf_rmap. apply with_slot_gen_nf; [|exact Hf]. apply nf_map_drain_filter.
+  - (* OClone *)
+    destruct (w_maps w !! s) as [ms|]; [|exact I]. destruct (negb _); [exact I|].
+    pose proof (nf_rt_clone c (load w ms (t_on t, t_tomb t) (t_perm t, t_qperm t))) as H. unfold wpp, fq, fu in H.
+    destruct (rt_clone c (load w ms (t_on t, t_tomb t) (t_perm t, t_qperm t))) as [r' s'|p s'|f]; cbn [wnf w_fuse]; [apply H; exact Hf| |exact I].
+    destruct (H Hf). auto.
+  - (* OCloneFrom *)
+    destruct (w_maps w !! s) as [src|]; [|exact I]. destruct (w_maps w !! d) as [dst|]; [|exact I]. destruct (negb _); [exact I|].
+    pose proof (nf_rt_clone_from c (m_rt src) (load w dst (t_on t, t_tomb t) (t_perm t, t_qperm t))) as H. unfold wpp, fq, fu in H.
+    destruct (rt_clone_from c (m_rt src) (load w dst (t_on t, t_tomb t) (t_perm t, t_qperm t))) as [r' s'|p s'|f]; cbn [wnf w_fuse store]; [apply H; exact Hf| |exact I].
+    destruct (H Hf). auto.
+  - (* OEq *)
+    destruct (w_maps w !! b) as [mb|]; [|exact I]. apply wnf_rmap. apply with_slot_gen_nf; [|exact Hf]. apply nf_map_equal.
   - pose proof (with_slot_gen_nf false w s (t_on t, t_tomb t) (t_perm t, t_qperm t) map_drop nf_map_drop Hf) as H.
     unfold with_slot. destruct (with_slot_gen false w s (t_on t, t_tomb t) (t_perm t, t_qperm t) map_drop); exact H.
 Qed.
